@@ -84,6 +84,9 @@ UNIT = {
                 # a failed schema creation closes the connection (the next open() starts over) and is reported
                 ('P:C04', '(g_schema_failed) ==> (!RESULT && self->db == 0 && g_handle == 0)'),
                 ('P:C03', '!RESULT ==> g_errors >= 1'),
+                # a connection that could not be brought up completely is not kept: the next open() starts over with the version check
+                # instead of finding a handle and taking the database for open
+                ('P:C03', '(OLD(self->db) == 0 && !RESULT) ==> (self->db == 0 && g_handle == 0)'),
                 # no connection is leaked: the member is the open handle
                 ('P:C03', 'self->db == g_handle || !RESULT'),
             ],
